@@ -1,5 +1,6 @@
 import Driver.Bitint
 import Driver.Instant
+import Driver.Strpf
 open Driver
 
 def step (line : String) : String :=
@@ -8,6 +9,7 @@ def step (line : String) : String :=
   | op :: args =>
     if op ∈ ["bui31", "bui63", "bi31", "bi63", "bi383", "bi447"] then runBitint op args
     else if op.startsWith "i." then runInstant op args
+    else if op.startsWith "s." then runStrpf op args
     else "bad-op"
 
 partial def loop (h : IO.FS.Stream) (out : IO.FS.Stream) : IO Unit := do
